@@ -45,6 +45,12 @@ class NullWalk:
                 for (off, sz, path, isp, dt) in leaves_of(P, p["ditype"]):
                     if isp:
                         self.slots[(("arg", k), off)] = "%s.%s" % (p.get("name") or ("arg%d" % k), path)
+        # records reached through a pointer parameter, analysed in the caller's abstract record: (("argp", k), offset)
+        for key_ in self.init:
+            if isinstance(key_[0], tuple) and key_[0][0] == "argp" and key_ not in self.slots:
+                k_ = key_[0][1]
+                nm = (fn.params[k_].get("name") if k_ < len(fn.params) else None) or ("arg%d" % k_)
+                self.slots[key_] = "%s->+%d" % (nm, key_[1])
         self._seen_find = set()
         self.unguarded_fields = unguarded_consumer_fields(P)
 
@@ -69,6 +75,13 @@ class NullWalk:
                 off += i["off"]
                 o = i["base"]
                 continue
+            if i.op == "load" and i["ptr"].get("k") == "inst":
+                a = fn.insts[i["ptr"]["id"]]
+                if a.op == "alloca":
+                    pk = fn.param_index_of_alloca(a)
+                    if pk is not None:
+                        k = (("argp", pk), off)
+                        return k if k in self.slots else None
             return None
         return None
 
@@ -216,6 +229,36 @@ class NullWalk:
                             me._seen_find.add(k2)
                             me.findings.append((i2, slot2, dict(dec2, called_from="%s:%d" % (fn.name, inst.line)), what2 + " (record passed by value from %s line %d)" % (fn.name, inst.line)))
                 else:
+                    # the address of a local record handed to a repo function (`equal(&new, &old)`): the callee is analysed in this abstract record,
+                    # what it dereferences through the pointer while the member is NULL / uninitialised is reported here
+                    if c in P.functions and P.functions[c].blocks and me.depth < 2:
+                        cf = P.functions[c]
+                        init = {}
+                        for k, a in enumerate(inst.args):
+                            if a.get("k") != "inst" or k in set(inst.get("byval", [])):
+                                continue
+                            ai = fn.resolve(rules.strip_casts(fn, a))
+                            if ai is None or ai.op not in ("alloca", "getelementptr", "bitcast"):
+                                continue
+                            tb = me._alloca_of(a)
+                            if tb is None or isinstance(tb[0], tuple):
+                                continue
+                            for sl, stv in nul.items():
+                                if not isinstance(sl[0], tuple) and sl[0] == tb[0] and stv in ("N", "U"):
+                                    init[(("argp", k), sl[1] - tb[1])] = stv
+                        if init:
+                            key = (c, tuple(sorted(init.items(), key=str)))
+                            sub = NullWalk._memo.get(key)
+                            if sub is None:
+                                nw = NullWalk(P, cf, init=init, context="%s at %s" % (fn.name, inst.loc()), depth=me.depth + 1)
+                                nw.run()
+                                sub = nw.findings
+                                NullWalk._memo[key] = sub
+                            for (i2, slot2, dec2, what2) in sub:
+                                k2 = (inst.id, i2.id, slot2)
+                                if k2 not in me._seen_find:
+                                    me._seen_find.add(k2)
+                                    me.findings.append((i2, slot2, dict(dec2, called_from="%s:%d" % (fn.name, inst.line)), what2 + " (record passed by address from %s line %d)" % (fn.name, inst.line)))
                     # a slot whose address is handed to a callee (out parameter) becomes unknown; by-value copies do not change it
                     byval = set(inst.get("byval", []))
                     for k, a in enumerate(inst.args):
